@@ -13,6 +13,7 @@ mod c13;
 mod c14;
 mod c15;
 mod c16;
+mod c17;
 mod c18;
 mod dump;
 mod progs;
@@ -50,6 +51,7 @@ fn main() {
         "c05" => c05::emit(&mut e, seed, thorough),
         "c12" => c12::emit(&mut e, seed, thorough),
         "c18" => c18::emit(&mut e, seed, thorough),
+        "c17" => c17::emit(&mut e, seed, thorough),
         "c16" => c16::emit(&mut e, seed, thorough),
         "c15" => c15::emit(&mut e, seed, thorough),
         "c13" => c13::emit(&mut e, seed, thorough),
